@@ -748,6 +748,21 @@ fn as_char<'de, 's, R: Read<'de> + ?Sized>(read: &R, value: u32) -> Result<char>
     }
 }
 
+/// Like `as_char`, for a code point written with a variable number of digits:
+/// at the end of input, further digits may still turn a surrogate into a
+/// scalar value, so that is reported as `eof`.
+fn as_char_unless_eof<'de, R: Read<'de> + ?Sized>(
+    read: &mut R,
+    value: u32,
+    eof: ErrorCode,
+) -> Result<char> {
+    match char::from_u32(value) {
+        Some(c) => Ok(c),
+        None if read.peek()?.is_none() => error(read, eof),
+        None => error(read, ErrorCode::InvalidUnicodeCodePoint),
+    }
+}
+
 fn needs_escape(c: u8) -> bool {
     c == b'\\' || c == b'"'
 }
@@ -881,17 +896,13 @@ where
     F: FnOnce(&mut R) -> Result<u32>,
 {
     let n = decode(read)?;
-    match char::from_u32(n) {
-        Some(c) => {
-            if n > 255 {
-                scratch.extend_from_slice(c.encode_utf8(&mut [0_u8; 4]).as_bytes());
-                Ok(ElispEscape::Multibyte)
-            } else {
-                scratch.push(n as u8);
-                Ok(ElispEscape::Unibyte)
-            }
-        }
-        None => error(read, ErrorCode::InvalidUnicodeCodePoint),
+    let c = as_char_unless_eof(read, n, ErrorCode::EofWhileParsingString)?;
+    if n > 255 {
+        scratch.extend_from_slice(c.encode_utf8(&mut [0_u8; 4]).as_bytes());
+        Ok(ElispEscape::Multibyte)
+    } else {
+        scratch.push(n as u8);
+        Ok(ElispEscape::Unibyte)
     }
 }
 
@@ -961,7 +972,10 @@ fn parse_elisp_escape<'de, R: Read<'de>>(
             if next_or_eof(read)? != b'U' || next_or_eof(read)? != b'+' {
                 return error(read, ErrorCode::InvalidEscape);
             }
-            let escape = parse_elisp_uni_char_escape(read, scratch, decode_elisp_hex_escape)?;
+            let escape = parse_elisp_uni_char_escape(read, scratch, |read| {
+                let n = decode_elisp_hex_escape(read)?;
+                as_char_unless_eof(read, n, ErrorCode::EofWhileParsingString).map(u32::from)
+            })?;
             if next_or_eof(read)? != b'}' {
                 return error(read, ErrorCode::InvalidEscape);
             }
@@ -1009,10 +1023,7 @@ fn parse_r6rs_char<'de, R: Read<'de> + ?Sized>(
     let initial = next_or_eof_char(read)?;
     if initial == b'x' {
         match decode_r6rs_char_hex_escape(read)? {
-            Some(n) => match char::from_u32(n) {
-                Some(c) => Ok(c),
-                None => error(read, ErrorCode::InvalidUnicodeCodePoint),
-            },
+            Some(n) => as_char_unless_eof(read, n, ErrorCode::EofWhileParsingCharacterConstant),
             None => Ok('x'),
         }
     } else if initial > 0x7F {
@@ -1177,11 +1188,13 @@ fn decode_elisp_char_escape<'de, R: Read<'de> + ?Sized>(
         }
         b'x' => {
             // Hexadecimal escape, allows arbitrary number of hex digits.
-            decode_elisp_hex_escape(read).and_then(|n| as_char(read, n))
+            let n = decode_elisp_hex_escape(read)?;
+            as_char_unless_eof(read, n, ErrorCode::EofWhileParsingCharacterConstant)
         }
         b'0' | b'1' | b'2' | b'3' | b'4' | b'5' | b'6' | b'7' => {
             // Octal escape, allows arbitrary number of octale digits.
-            decode_elisp_octal_escape(read, ch).and_then(|n| as_char(read, n))
+            let n = decode_elisp_octal_escape(read, ch)?;
+            as_char_unless_eof(read, n, ErrorCode::EofWhileParsingCharacterConstant)
         }
         next => {
             if next > 0x7F {
